@@ -121,8 +121,11 @@ func NewFileSequencePad(sequence string, style PadStyle) (*FileSequence, error) 
 
 					// Calculate the padding chars
 					pad = padder.PaddingChars(len(strings.TrimSpace(frameStr)))
+
+					// Only a frame that parsed makes the match usable: the
+					// extension has to stay consistent with the dir/basename
+					ext = parts[3]
 				}
-				ext = parts[3]
 			}
 		}
 
